@@ -1033,7 +1033,112 @@ def _dict_items(d):
     return sorted((k, show(d.get(k), 200)) for k in d.keys())
 
 
+def _pv(t):
+    """Python value of a constant term (None when it is not one)."""
+    if isinstance(t, Const):
+        return t.v
+    if is_num(t) and t.is_number:
+        f = float(t)
+        return int(f) if f == int(f) else f
+    if isinstance(t, Tup):
+        vs = [_pv(i) for i in t.items]
+        return None if any(v is None for v in vs) else (vs if t.kind == 'list' else tuple(vs))
+    return None
+
+
+# (shape, class, meta, visual, [(what must hold after write -> parse, predicate over (meta, visual) python dicts)])
+WRITER_FIRST_PROBES = [
+    ('circle', 'CirclePixelRegion', {'tag': 'group1'}, {},
+     [('the tag "group1" comes back as the one tag', lambda M, V: M.get('tag') == ['group1'])]),
+    ('circle', 'CirclePixelRegion', {'tag': ['a', 'b c']}, {},
+     [('both tags come back', lambda M, V: M.get('tag') == ['a', 'b c'])]),
+    ('circle', 'CirclePixelRegion', {'label': 'L'}, {},
+     [('the label comes back (as text or label)', lambda M, V: 'L' in (M.get('text'), M.get('label')))]),
+    ('circle', 'CirclePixelRegion', {}, {'linestyle': '-'},
+     [('a solid line stays solid', lambda M, V: 'dashes' not in V and V.get('linestyle') in (None, '-', 'solid'))]),
+    ('circle', 'CirclePixelRegion', {}, {'linestyle': 'solid'},
+     [('a solid line stays solid', lambda M, V: 'dashes' not in V and V.get('linestyle') in (None, '-', 'solid'))]),
+    ('circle', 'CirclePixelRegion', {}, {'linestyle': '--'},
+     [('a dashed line stays dashed', lambda M, V: 'dashes' in V or V.get('linestyle') not in (None, '-', 'solid'))]),
+    ('circle', 'CirclePixelRegion', {}, {'linewidth': 3, 'color': 'red'},
+     [('line width 3 comes back', lambda M, V: V.get('linewidth') == 3)]),
+    ('text', 'TextPixelRegion', {}, {'fontsize': 14, 'fontweight': 'bold'},
+     [('font size and weight survive without a font name', lambda M, V: str(V.get('fontsize')) == '14' and V.get('fontweight') == 'bold')]),
+    ('text', 'TextPixelRegion', {}, {'fontname': 'times', 'fontsize': 12.0, 'fontweight': 'bold', 'fontstyle': 'italic'},
+     [('the font comes back', lambda M, V: V.get('fontname') == 'times' and float(V.get('fontsize')) == 12.0
+       and V.get('fontweight') == 'bold' and V.get('fontstyle') == 'italic')]),
+    ('point', 'PointPixelRegion', {}, {'marker': 'o', 'markersize': 7},
+     [('the marker size comes back as the number 7', lambda M, V: V.get('markersize') == 7)]),
+]
+
+
+def r11(ctx):
+    """serialise -> parse of metadata given by a program (not by a first parse): the writer's translation and string
+    builder and the reader's whole metadata pipeline are partially evaluated on probe (meta, visual) dictionaries; what
+    the dictionaries say (tags, label, solid/dashed, width, font, marker size) must come back, and nothing may raise."""
+    m = ctx.model
+    pipe = _meta_pipeline(ctx)
+    meta_fn, mkstr = _meta_writer(ctx)
+    for shape, cname, meta, visual, wants in WRITER_FIRST_PROBES:
+        name = f'{shape}: meta={meta} visual={visual}'
+
+        def term(v):
+            if isinstance(v, (list, tuple)):
+                return Tup(tuple(term(x) for x in v), 'list' if isinstance(v, list) else 'tuple')
+            if isinstance(v, bool) or isinstance(v, str):
+                return Const(v)
+            if isinstance(v, int):
+                return sp.Integer(v)
+            if isinstance(v, float):
+                return sp.Float(v)
+            return Const(v)
+        M0, err = pipe['construct']('RegionMeta', DictV([{k: term(v) for k, v in meta.items()}]), 'for the probe')
+        V0, err2 = pipe['construct']('RegionVisual', DictV([{k: term(v) for k, v in visual.items()}]), 'for the probe')
+        ctx.need(not err and not err2, name, f'probe dictionaries rejected: {err or err2}')
+        ev = Evaluator(m)
+        flds = {'meta': M0, 'visual': V0}
+        if shape == 'text':
+            flds['text'] = Const('t')
+        try:
+            d = ev.call(meta_fn, [Obj(cname, flds, 'region', m.cls(cname)), Const(shape)], {})
+            if not (isinstance(d, DictV) and not d.has_symbolic()):
+                raise AnalysisError('C09.R11', name, f'writer metadata not reducible: {show(d, 200)}')
+            line = render(ev.call(mkstr, [d], {}), {})
+        except AnalysisError as exc:
+            ctx.need(False, name, f'writer not reducible on the probe: {exc}')
+        M1, V1, err = pipe['parse'](shape, line)
+        if err:
+            ctx.bad(name, 'write-parse-raises', f'the region is written with `{line}`, and {err}: the text cannot be read back',
+                    meta_fn.loc())
+            continue
+        Mp = {k: _pv(M1.get(k)) for k in M1.keys()}
+        Vp = {k: _pv(V1.get(k)) for k in V1.keys()}
+        failed = []
+        for what, pred in wants:
+            try:
+                ok = bool(pred(Mp, Vp))
+            except (TypeError, ValueError):
+                ok = False
+            if not ok:
+                failed.append(what)
+        if failed:
+            ctx.bad(name, 'write-parse-differs',
+                    f'written as `{line}` and read back as meta {Mp}, visual {Vp}: not true any more: {"; ".join(failed)}',
+                    meta_fn.loc())
+        else:
+            ctx.ok(name, f'written as `{line}`; ' + '; '.join(w for w, _ in wants))
+
+
+def _meta_pipeline(ctx):
+    """the reader's metadata pipeline as two closures: construct(cname, dict, where) and parse(shape, text)."""
+    return _r10_impl(ctx, build_only=True)
+
+
 def r10(ctx):
+    return _r10_impl(ctx)
+
+
+def _r10_impl(ctx, build_only=False):
     """visual metadata is a fixed point of parse -> serialise -> parse: the reader's metadata pipeline (lexer, raw
     validation, meta/visual split, translation to matplotlib keys, RegionMeta/RegionVisual construction), the writer's
     translation back to DS9 keys and the reader's pipeline again are partially evaluated on probe metadata strings; the
@@ -1082,7 +1187,11 @@ def r10(ctx):
         ctx.need(isinstance(rawm, DictV) and not rawm.has_symbolic(), f'parse `{text}`', f'raw metadata not reducible: {show(rawm, 160)}')
         mv = ev.call(split, [rawm], {})
         ctx.need(isinstance(mv, Tup) and len(mv.items) == 2, split.qualname, 'does not return (meta, visual)')
-        vis = ev.call(trans, [Const(shape), mv.items[1]], {})
+        tout = ev.run(trans, [Const(shape), mv.items[1]], {})
+        tdef = [n_ for pc_, n_, _ in tout.raises if not [c for c in pc_ if not (isinstance(c, Const) and c.v is True)]]
+        if tdef and not tout.returns:
+            return None, None, f'reading `{text}` raises {tdef[0]} in {trans.name}'
+        vis = ev.gated_return(tout)
         ctx.need(isinstance(vis, DictV) and not vis.has_symbolic(), f'parse `{text}`', f'visual metadata not reducible: {show(vis, 200)}')
         meta = mv.items[0]
         if shape == 'text' and 'text' in meta.keys():
@@ -1093,6 +1202,8 @@ def r10(ctx):
         V, err = construct('RegionVisual', vis, f'when parsing `{text}`')
         return M, V, err
 
+    if build_only:
+        return {'construct': construct, 'parse': parse}
     for shape, cname, text in VISUAL_PROBES:
         construct_name = f'{shape}: {text}'
         M1, V1, err = parse(shape, text)
@@ -1129,6 +1240,7 @@ RULES = [
     RuleDef('R6', 'deterministic output', r6, 1),
     RuleDef('R7', 'serialisers do not mutate the regions', r7, 2),
     RuleDef('R9', 'list-level assembly: global/own metadata and frame lines recover every record', r9, 4),
+    RuleDef('R11', 'write -> parse of programmatic metadata (tags, label, solid/dashed, width, font, marker size) on probe dictionaries', r11, 8),
     RuleDef('R10', 'visual metadata: parse -> serialise -> parse fixed point on probe metadata', r10, 11),
     RuleDef('R8', 'text and tags: written delimiters are the ones lexed; free text is never coerced; bound to the region', r8, 5),
 ]
